@@ -8,7 +8,9 @@
 //! Correspondence (the parts of the analysis path modelled in `Model/Total.lean`):
 //!   op `cost`   the real `Lattice` (reset/insert/connect_eos) driven with generated candidates and i16-extreme
 //!               costs: stored i32 totals, back-pointers, EOS, overflow outcome;
-//!   op `limits` `InputBuffer::start_build` / `with_editor` (commit) at the 49149 / 65535 byte limits;
+//!   op `limits` `InputBuffer::start_build` / `with_editor` (commit) at the 49149 / 65535 byte limits; the token
+//!               `commit=running|final` tells the model which length guard `resolve_edits`/`commit` has (behavioural
+//!               probe `commit_variant`), so the same framework commit ties the tree before and after the repair;
 //!   op `access` begin/end/begin_c/end_c/surface of every morpheme and of its A and B splits, recomputed by the
 //!               model from the dumped offset tables and the split units' head-word lengths; the token
 //!               `split=cur|d6fix` tells the model which `NodeSplitIterator::next` the linked tree has
@@ -19,6 +21,7 @@ use crate::world::*;
 use std::sync::Arc;
 use sudachi::analysis::lattice::Lattice;
 use sudachi::analysis::stateful_tokenizer::StatefulTokenizer;
+use sudachi::analysis::stateless_tokenizer::DictionaryAccess;
 use sudachi::analysis::Mode;
 use sudachi::analysis::Node;
 use sudachi::dic::dictionary::JapaneseDictionary;
@@ -33,6 +36,8 @@ const MAX_LENGTH: usize = 49149;
 const REALLY_MAX: usize = 65535;
 const CASES_PER_WORLD: usize = 24;
 const N_DIRECTED: usize = 34;
+/// directed `limits` cases that follow the directed whole-tokenizer cases
+const N_DIRECTED_LIMITS: usize = 8;
 /// directed case that does not terminate on the unchanged tree: run last
 const HANG_CASE: usize = 29;
 
@@ -520,6 +525,56 @@ fn impl_d6_fixed() -> bool {
 
 fn split_variant() -> &'static str { if impl_d6_fixed() { "d6fix" } else { "cur" } }
 
+/// which length guard `resolve_edits`/`commit` of the linked tree has (model: `EditM.LenV`): behavioural probe, once.
+/// One batch on 40000 x `a`: the first byte is replaced by 30000 bytes (running length 69999 > 65535), then the
+/// other 39999 bytes are deleted (final length 30000, far below the limit).  The pinned code leaves the loop of
+/// `resolve_edits` at the first edit and `with_editor` reports InputTooLong (`running`); the repaired code compares
+/// the final length and commits (`final`).  A panic counts as `running`.
+pub fn commit_variant() -> &'static str {
+    static P: std::sync::OnceLock<&'static str> = std::sync::OnceLock::new();
+    *P.get_or_init(|| {
+        let r = catch(|| {
+            let mut buf = InputBuffer::new();
+            buf.reset().push_str(&rep("a", 40000));
+            if buf.start_build().is_err() { return false; }
+            let r = buf.with_editor(|_, mut ed| {
+                ed.replace_own(0..1, rep("x", 30000));
+                ed.replace_own(1..40000, String::new());
+                Ok(ed)
+            });
+            r.is_ok() && buf.current().len() == 30000
+        });
+        if r == Ok(true) { "final" } else { "running" }
+    })
+}
+
+/// which `RegexOovProvider::provide_oov` the linked tree has (model: `Oov.RegexCfg.skipEmpty`): behavioural probe,
+/// once.  The provider with the pattern `[a]{0,}` is asked for candidates at offset 0 of the text `b` (empty
+/// match): the pinned code reaches `CreatedWords::single(0)` (debug assertion; a release build pushes a node of
+/// length 0), the repaired code returns `Ok(0)` without a node.  Anything else than "no node, no panic" = pinned.
+pub fn regex_skips_empty() -> bool {
+    static P: std::sync::OnceLock<bool> = std::sync::OnceLock::new();
+    *P.get_or_init(|| {
+        let rows = vec![Row::simple("あ", 0, 0, 100, NOUN)];
+        let re = format!(r#"{{"class":"com.worksap.nlp.sudachi.RegexOovProvider","regex":"[a]{{0,}}","leftId":0,"rightId":0,"cost":100,"oovPOS":{},"maxLength":8,"boundaries":"relaxed"}}"#, OOV_POS_JSON);
+        let (_wd, dic) = match dict_from("C03-probe-regex", &rows, "1 1\n0 0 10\n", &[], &[re, simple_oov_json(0, 0, 3000)], &[]) {
+            Ok(x) => x,
+            Err(_) => return false,
+        };
+        let r = catch(|| {
+            let mut ib = InputBuffer::from("b");
+            if ib.build(dic.grammar()).is_err() { return false; }
+            let mut nodes: Vec<Node> = vec![];
+            let plugin = &dic.oov_provider_plugins()[0];
+            match plugin.provide_oov(&ib, 0, sudachi::analysis::created::CreatedWords::empty(), &mut nodes) {
+                Ok(0) => nodes.is_empty(),
+                _ => false,
+            }
+        });
+        r == Ok(true)
+    })
+}
+
 fn access_line(run: &mut Run, idx: usize, w: &Whole) {
     if w.outcome != "ok" || w.morphs.is_empty() || w.orig.len() > 2000 { return; }
     if w.morphs.iter().any(|m| m.units_a.is_none() || m.units_b.is_none()) { run.bump("access:units-unreadable"); return; }
@@ -643,6 +698,12 @@ fn profile() -> &'static str { if cfg!(debug_assertions) { "debug" } else { "rel
 /// (start, end, unit, count): replace [start,end) with `unit` repeated `count` times
 type REdit = (usize, usize, &'static str, usize);
 
+fn m2o_cks(m2o: &[usize]) -> u64 {
+    let mut s: u64 = 0;
+    for v in m2o.iter() { s = (s * 31 + *v as u64) % 1_000_000_007; }
+    s
+}
+
 fn run_limits(orig_unit: &str, orig_count: usize, batches: &[Vec<REdit>]) -> String {
     let orig = rep(orig_unit, orig_count);
     let res = catch(|| -> String {
@@ -655,12 +716,16 @@ fn run_limits(orig_unit: &str, orig_count: usize, batches: &[Vec<REdit>]) -> Str
                 for e in b2.iter() { ed.replace_own(e.0..e.1, rep(e.2, e.3)); }
                 Ok(ed)
             });
-            if r.is_err() { return format!("err:TooLong at={}", k); }
+            if r.is_err() {
+                // a rejected batch must leave nothing behind: the pending edits are gone (an editor call without
+                // edits succeeds and changes nothing) and text and offset map are those before the batch
+                let r2 = buf.with_editor(|_, ed| Ok(ed));
+                let t = buf.verif_tables();
+                return format!("err:TooLong at={} after={}:{}:{}:{}", k, if r2.is_ok() { "ok" } else { "err" }, t.modified.len(), t.m2o.len(), m2o_cks(&t.m2o));
+            }
         }
         let t = buf.verif_tables();
-        let mut s: u64 = 0;
-        for v in t.m2o.iter() { s = (s * 31 + *v as u64) % 1_000_000_007; }
-        format!("ok len={} m2o={} last={} cks={}", t.modified.len(), t.m2o.len(), t.m2o.last().copied().unwrap_or(0), s)
+        format!("ok len={} m2o={} last={} cks={}", t.modified.len(), t.m2o.len(), t.m2o.last().copied().unwrap_or(0), m2o_cks(&t.m2o))
     });
     match res { Ok(s) => s, Err(_) => "PANIC".into() }
 }
@@ -669,7 +734,7 @@ fn limits_payload(orig_unit: &str, orig_count: usize, batches: &[Vec<REdit>]) ->
     let bs = batches.iter().map(|b| if b.is_empty() { "-".to_string() } else {
         b.iter().map(|e| format!("{}/{}/rep:{}:{}", e.0, e.1, hex(e.2.as_bytes()), e.3)).collect::<Vec<_>>().join(",")
     }).collect::<Vec<_>>().join(";");
-    format!("orig=rep:{}:{} batches={}", hex(orig_unit.as_bytes()), orig_count, bs)
+    format!("orig=rep:{}:{} batches={} commit={}", hex(orig_unit.as_bytes()), orig_count, bs, commit_variant())
 }
 
 fn limits_case(run: &mut Run, idx: usize, rng: &mut Rng, directed: Option<usize>) {
@@ -680,6 +745,10 @@ fn limits_case(run: &mut Run, idx: usize, rng: &mut Rng, directed: Option<usize>
         Some(3) => ("a", 49149, vec![vec![(1, 49149, "", 0)], vec![(0, 1, "b", 65535)], vec![(0, 0, "c", 1)]]), // shrink, grow to 65535, one more byte
         Some(4) => ("a", 49150, vec![]),
         Some(5) => ("あ", 16383, vec![vec![(0, 3, "x", 1)], vec![], vec![(1, 4, "あ", 5463)]]),
+        // one batch that first expands (running length 89148) and then contracts to exactly 65535 / 65536 bytes: the
+        // limit on the FINAL length (the pinned running-length guard rejects both, the repaired guard only the second)
+        Some(6) => ("a", 49149, vec![vec![(0, 1, "b", 40000), (1, 23614, "", 0)]]),
+        Some(7) => ("a", 49149, vec![vec![(0, 1, "b", 40000), (1, 23613, "", 0)], vec![(0, 1, "", 0)]]),
         _ => {
             let unit: &'static str = *rng.pick(&["a", "あ", "é"]);
             let ul = unit.len();
@@ -742,6 +811,10 @@ fn limits_case(run: &mut Run, idx: usize, rng: &mut Rng, directed: Option<usize>
 pub fn run(run: &mut Run) {
     run.extra.insert("model_variant_split".into(), serde_json::json!(split_variant()));
     run.bump(&format!("model-variant:split={}", split_variant()));
+    run.extra.insert("model_variant_commit".into(), serde_json::json!(commit_variant()));
+    run.bump(&format!("model-variant:commit={}", commit_variant()));
+    run.extra.insert("model_variant_regex_skips_empty".into(), serde_json::json!(regex_skips_empty()));
+    run.bump(&format!("model-variant:regex-skips-empty={}", regex_skips_empty()));
     run.rule = "directed: D7 chains (32768/32769/40000 one-character words of cost 32767, connection 32767), total = i32::MAX sentinel, D6 split longer \
 than parent, regex matching the empty string, commit running length, 49148/49149/49150-byte inputs, NFKC x18 / x4 expansions crossing 65535 bytes, NUL/controls/ZWJ, \
 class runs, JoinNumeric hang; generated: random worlds (all plugin stacks, with/without fallback, i16-extreme costs) x adversarial texts (specials, 60-70 class runs, \
@@ -787,7 +860,7 @@ non-trivial = access line with a changed text or a split, cost line with >= 2 no
             drop(wd);
             continue;
         }
-        if idx < N_DIRECTED + 6 {
+        if idx < N_DIRECTED + N_DIRECTED_LIMITS {
             limits_case(run, idx, &mut rng, Some(idx - N_DIRECTED));
             continue;
         }
